@@ -97,29 +97,32 @@ int main(int argc, char **argv)
 {
     FILE *f = argc > 1 ? fopen(argv[1], "r") : stdin;
     if (!f) return 2;
-    static char *lines[MAXOPS];
+    /* read the whole input first: a child that dies through exit() would otherwise rewind the shared file offset */
+    static char *all[400000];
+    int          nall = 0;
     char         buf[256];
-    int          n = 0, started = 0, eof = 0;
-    while (!eof) {
-        char *p = fgets(buf, sizeof buf, f);
-        if (p == NULL) eof = 1;
-        if (eof || (buf[0] == 'N' && (buf[1] == '\n' || buf[1] == 0))) {
+    while (fgets(buf, sizeof buf, f) != NULL && nall < 400000) all[nall++] = strdup(buf);
+    fclose(f);
+    static char *lines[MAXOPS];
+    int          n = 0, started = 0;
+    for (int ai = 0; ai <= nall; ai++) {
+        const char *b = ai < nall ? all[ai] : NULL;
+        if (b == NULL || (b[0] == 'N' && (b[1] == '\n' || b[1] == 0))) {
             if (started) {
                 fflush(stdout);
                 pid_t pid = fork();
-                if (pid == 0) { run_history(lines, n); _exit(0); }
+                if (pid == 0) { alarm(120); run_history(lines, n); _exit(0); }
                 int st = 0;
                 waitpid(pid, &st, 0);
                 if (!(WIFEXITED(st) && WEXITSTATUS(st) == 0))
                     printf("CRASH status=%d\n", WIFEXITED(st) ? WEXITSTATUS(st) : 1000 + WTERMSIG(st));
             }
-            for (int i = 0; i < n; i++) free(lines[i]);
             n = 0;
-            if (!eof) { printf("N\n"); started = 1; }
+            if (b != NULL) { printf("N\n"); started = 1; }
             continue;
         }
-        if (buf[0] == '\n' || buf[0] == '#') continue;
-        if (n < MAXOPS) lines[n++] = strdup(buf);
+        if (b[0] == '\n' || b[0] == '#') continue;
+        if (n < MAXOPS) lines[n++] = all[ai];
     }
     fflush(stdout);
     return 0;
